@@ -138,6 +138,8 @@ def c02(run):
     rt_family(run, "prio_2x2", "prio", 2 if quick else 2, 2, sample=4)
     rt_random(run, "rand_params", "prio", 600 if quick else 40000)
     rt_random(run, "rand_hostile", "hostile", 200 if quick else 10000)
+    # header-gated routes: a leaf that matches the path but fails on the headers leaves nothing behind in the parameters
+    rt_random(run, "rand_hdr", "hdr", 300 if quick else 20000)
     return run.finish(rule=RT_RULE, extra_assumptions=RT_ASSUME)
 
 
@@ -330,6 +332,9 @@ def c11(run):
     cf = vlib.subsample(r["cases_file"], 6000 if quick else 150000, run.seed, run)
     run.conformance("rg_programs", "registrar", cf, "RegistrarTrace", TRACE_CFG % "", chunk_events=20000)
     rg_random(run, 500 if quick else 30000)
+    # dynamic, optional and header-gated routes registered through Any / Routes(two methods) / Get under AutoHead: every
+    # method must behave like its own single-method registration (layer P of the route tree is per method)
+    rt_random(run, "rand_multi", "hdr", 250 if quick else 15000)
     return run.finish(
         rule="TLC enumerates every well-bracketed registration program up to the length bound (groups with 0..1 handlers nested up to "
              "depth 2, Routes with one/two methods, Any, Get, Combo with 1-2 calls incl. a repeated method, AutoHead on/off) and checks "
@@ -384,7 +389,7 @@ def c05(run):
     run.build_harness()
     race_bin = run.build_harness(race=True)
     run.fatal_race_is_violation = True
-    for d in ("SHAREDSLICE", "NOONCE", "SHAREDRENDER", "SHAREDSRC", "SHAREDPARAMS"):
+    for d in ("SHAREDSLICE", "NOONCE", "SHAREDRENDER", "SHAREDSRC", "SHAREDPARAMS", "SHAREDLOGGER"):
         run.tlc("Concurrent", cc_cfg(2, dev=[d], emit=False, view=True), name="CC_neg_" + d, expect_violation="ReadOnlyAfterSetup")
     # liveness under per-request fairness, and no request ever waits for another one
     run.model_check("Concurrent", "SPECIFICATION FairSpec\nCONSTANTS\n NProc = 2\n Dev = {}\n EmitCases = FALSE\n"
